@@ -197,6 +197,34 @@ def run(ctx):
                          "inside repeats it also fires for new repeat instances", sv.loc())
     rules.append(r1)
 
+    # the two sites decide with the same classifier for EVERY question class: a select whose default the classifier
+    # calls dynamic (a choice name such as `18-plus` lexes as arithmetic) gets the action and no literal, and a static
+    # one the literal and no action - whatever the choice names are
+    mq_ = repo.cls("pyxform.question:MultipleChoiceQuestion")
+    ocls_ = repo.cls("pyxform.question:Option")
+    icls_ = repo.cls("pyxform.question:Itemset")
+    rq_ = repo.cls("pyxform.question:RangeQuestion")
+    for cname, ci_, extra_ in (("select one", mq_, {"itemset": "l", "list_name": "l", "choice_filter": None, "parameters": None}), ("select all that apply", mq_, {"itemset": "l", "list_name": "l", "choice_filter": None, "parameters": None}),
+                               ("range", rq_, {"parameters": {"start": "1", "end": "9"}})):
+        for default, dyn in (("18-plus", True), ("18-plus a", True), ("a", False), ("1-a", True), ("b a", False)):
+            opts_ = tuple(_mk(ctx, ocls_, nm_, label=nm_.upper()) for nm_ in ("18-plus", "a", "b", "1-a"))
+            iset_ = Obj(icls_, {"name": "l", "options": opts_, "requires_itext": False, "used_by_search": False}, name="itemset")
+            q_ = _mk(ctx, ci_, "s1", default=default, type=cname, bind={"type": "string"}, choices=(iset_ if ci_ is mq_ else None), **extra_)
+            calls_ = []
+            h_ = hooks({"18-plus", "18-plus a", "1-a"}, calls_)
+            survey_ = Obj(None, {"insert_xpaths": h_["fnname:insert_xpaths"]}, name="survey")
+            it_ = ctx.interp("C10.R1", hooks=h_)
+            it_.reset([])
+            try:
+                inst_ = it_.call_function(xi, [q_], {"survey": survey_}, None, xi.node)
+                setv_ = it_.call_function(sv, [q_], {"survey": survey_}, None, sv.node)
+                lit_, has_sv_ = isinstance(inst_, NodeVal) and inst_.text is not None, isinstance(setv_, NodeVal)
+                why_ = f"literal={lit_} setvalue={has_sv_}"
+                ok_ = lit_ != has_sv_ and lit_ == (not dyn)
+            except Raised as e:
+                ok_, why_ = False, f"raises {e.exc_name}"
+            r1.check(ok_, f"xml_instance/setvalue[{cname}: default={default!r} classified {'dynamic' if dyn else 'static'}]", "exactly one of: literal node content (static) or setvalue action (dynamic)",
+                     xi.loc(), why_fail=why_)
     static_default_verbatim(ctx, r1, "C10.R1")
     # ------------------------------------------------------------------ R2
     r2 = Rule("C10", "C10.R2", "exactly two placements, partitioned by repeat ancestry", floor=6,
@@ -286,6 +314,37 @@ def run(ctx):
     apps = [c for c in walk_own(rx.node) if isinstance(c, ast.Call) and call_name(c) == "appendChild" and norm(c.func.value) == "repeat_node"]
     loops = [x for x in walk_own(rx.node) if isinstance(x, ast.For) and "_dynamic_defaults_helper" in norm(x.iter)]
     r2.check(len(loops) == 1 and any(c in list(ast.walk(loops[0])) for c in apps), "RepeatingSection.xml_control", "the helper's setvalues are appended inside the <repeat> body", rx.loc())
+    # a repeat whose rows are all invisible (calculates) still has a body element: it is the only place where the
+    # dynamic defaults of its rows are applied for new repeat instances
+    rxc = rcls.methods["xml_control"]
+    for n_hidden, n_visible in ((1, 0), (2, 0), (1, 1)):
+        kids_ = [_mk(ctx, qcls, f"c{j}", type="calculate", default="uuid()", bind={"type": "string"}, control=None, label=None) for j in range(n_hidden)]
+        kids_ += [_mk(ctx, qcls, f"v{j}", type="text", default=None, bind={"type": "string"}, control={"tag": "input"}, label="V") for j in range(n_visible)]
+        rep_ = _mk(ctx, rcls, "r", type="repeat", children=kids_, label="R", control={"jr:count": "3"}, bind=None)
+        for k_ in kids_:
+            k_.attrs["parent"] = rep_
+        hr_ = hooks({"uuid()"}, [])
+        hr_["fnname:build_xml"] = lambda i, a, k, n: NodeVal("input")
+        hr_["fnname:xml_label"] = lambda i, a, k, n: NodeVal("label")
+        sv_stub = Obj(None, {"insert_xpaths": hr_["fnname:insert_xpaths"], "get_trigger_values_for_question_name": lambda i, a, k, n: []}, name="survey")
+        itr_ = ctx.interp("C10.R2", hooks=hr_)
+        itr_.reset([])
+        try:
+            ctl_ = itr_.call_function(rxc, [rep_], {"survey": sv_stub}, None, rxc.node)
+            found_ = []
+
+            def walk_(n_):
+                if isinstance(n_, NodeVal):
+                    if n_.tag == "setvalue":
+                        ref_ = n_.attrs.get("ref")
+                        found_.append(ref_.attrs.get("of").name if isinstance(ref_, Sym) and ref_.attrs.get("of") is not None else str(ref_))
+                    for c_ in n_.children:
+                        walk_(c_)
+            walk_(ctl_)
+        except Raised as e:
+            ctl_, found_ = None, f"raises {e.exc_name}"
+        r2.check(isinstance(ctl_, NodeVal) and found_ == [f"c{j}" for j in range(n_hidden)], f"RepeatingSection.xml_control[{n_hidden} hidden row(s) with a dynamic default, {n_visible} visible]",
+                 "the repeat's body element exists and holds one setvalue per dynamic default", rxc.loc(), why_fail=f"control={ctl_!r} setvalues for {found_!r}")
     rules.append(r2)
 
     # ------------------------------------------------------------------ R3 / R4
@@ -335,6 +394,24 @@ def run(ctx):
         val = sv_.attrs.get("value")
         r3.check(isinstance(val, Sym) and val.attrs.get("src") == "1 + 1" and val.attrs.get("context") is tq, "nested setvalue:value", "value is the substituted calculation (tuple index 1)", xc.loc(), why_fail=repr(val))
         r3.check("value" not in sg_.attrs, "nested setgeopoint:value", "an empty expression yields no value attribute", xc.loc())
+    # what else the triggering row carries does not matter: read_only in any spelling (a note is read-only too, and a
+    # read-only question's value still changes by calculation), relevance, required, an appearance
+    for tdesc, tbind, tctrl in (("read_only=yes", {"type": "string", "readonly": "true()"}, {"tag": "input"}), ("read_only=no", {"type": "string", "readonly": "false()"}, {"tag": "input"}),
+                                ("read_only expression", {"type": "string", "readonly": "${lock} = 'yes'"}, {"tag": "input"}), ("relevant + required", {"type": "string", "relevant": "${a} > 1", "required": "true()"}, {"tag": "input"}),
+                                ("appearance", {"type": "string"}, {"tag": "input", "appearance": "numbers"})):
+        tq2 = _mk(ctx, qcls, "t", label="T", type="text", bind=tbind, control=tctrl)
+        tq2.attrs["parent"] = sobj
+        CT2 = NodeVal("input")
+        h2_ = hooks(set(), [])
+        h2_["fnname:build_xml"] = lambda i, a, k, n, CT2=CT2: CT2
+        it2_ = ctx.interp("C10.R3", hooks=h2_)
+        it2_.reset([])
+        try:
+            it2_.call_function(xc, [tq2], {"survey": sobj}, None, xc.node)
+            tags2 = [k_.tag for k_ in CT2.children if isinstance(k_, NodeVal)]
+        except Raised as e:
+            tags2 = f"raises {e.exc_name}"
+        r3.check(tags2 == ["setvalue", "odk:setgeopoint"], f"Question.xml_control[trigger row with {tdesc}]", "the triggered actions are nested in the triggering question's control", xc.loc(), why_fail=repr(tags2))
     # several targets behind one trigger, with and without an expression, in every order: each nested action carries
     # its own target and exactly its own expression (none when its own is empty)
     import itertools as _it3
